@@ -4,10 +4,10 @@ package main
 // a second signer, stored in the attacker's block store, delivered by any route.
 
 import (
-	"math/big"
 	"context"
 	"encoding/json"
 	"fmt"
+	"math/big"
 	"strings"
 	"time"
 
@@ -17,8 +17,8 @@ import (
 	"berty.tech/go-orbit-db/iface"
 	"berty.tech/go-orbit-db/stores/operation"
 	cid "github.com/ipfs/go-cid"
-	ipld "github.com/ipfs/go-ipld-format"
 	cbornode "github.com/ipfs/go-ipld-cbor"
+	ipld "github.com/ipfs/go-ipld-format"
 	mh "github.com/multiformats/go-multihash"
 )
 
@@ -273,12 +273,18 @@ func (w *World) forge(ctx context.Context, toks []string) {
 			fail("undecodable")
 			return
 		}
-		sg, _ := m["sig"].(string)
-		if strings.ToUpper(sg) == sg {
-			fail("nothing-to-change")
-			return
+		if args["how"] == "v0" {
+			// … or the same content under the version number 0: the decoder reads the block into an entry
+			// of that version, the encoder has no form for it - fetched, it can never be written again
+			m["v"] = 0
+		} else {
+			sg, _ := m["sig"].(string)
+			if strings.ToUpper(sg) == sg {
+				fail("nothing-to-change")
+				return
+			}
+			m["sig"] = strings.ToUpper(sg)
 		}
-		m["sig"] = strings.ToUpper(sg)
 		twin, err := cbornode.WrapObject(m, mh.SHA2_256, -1)
 		if err != nil {
 			fail("unencodable")
